@@ -443,6 +443,11 @@ def r9_client_tries_response_first(ctx):
         lst = sorted(lst, key=lambda c: len(b.dom[c.bb]))
         tys = [c05._norm_ty(c.ga[-1]) for c in lst]
         first_is_response = bool(tys) and "Response<" in tys[0] and "Notification" not in tys[0]
+        # ... and unconditionally: every other attempt is made only after the Response attempt ran (no pre-filter that
+        # skips it, e.g. sniffing the raw bytes for "method" - a result may contain that text)
+        if first_is_response and len(lst) > 1:
+            skipped = [c for c in lst[1:] if not b.dominates(lst[0].bb, c.bb)]
+            R.check(not skipped, "C15.R9", "client-%s:response-attempt-unconditional" % label, "every %s message is first tried as a Response" % label, "in the client's %s classification the Response attempt can be skipped (a later attempt is reachable without it): a response whose payload happens to satisfy the pre-filter (e.g. contains the text \"method\") is never decoded as a response and the read task fails" % label, where(skipped[0]) if skipped else None)
         R.check(first_is_response, "C15.R9", "client-%s:response-first" % label, "the %s classification tries Response first" % label, "the client's %s classification tries %s before Response: a valid response that carries an extra `method` member is taken for a notification and its call never completes (the HTTP client, which parses Response directly, still accepts it)" % (label, [short(t) for t in tys[:3]]), where(lst[0]) if lst else None)
 
 
